@@ -58,6 +58,12 @@ func (g *tgen) oneOf(label string, opts ...string) string {
 }
 func (g *tgen) route(s string) { g.routes[s] = true }
 
+// u draws lo..hi uniformly (rapid's IntRange favours the bounds and small
+// values, which starves the later alternatives of a big switch).
+func (g *tgen) u(lo, hi int, label string) int {
+	return lo + uniformIndex(g.t, hi-lo+1, label)
+}
+
 var symPool = []string{"a", "b", "c", "p", "q", "z"}
 var strPool = []string{"b", "a", "zz", "", "m", "a b", "Q"}
 
@@ -172,7 +178,7 @@ func (g *tgen) source() vx {
 	}
 	k := g.kind()
 	n := g.length()
-	switch g.n(-1, 14, "src") {
+	switch g.u(-1, 14, "src") {
 	case -1:
 		return g.elementSource(k, n)
 	case 14:
@@ -228,7 +234,7 @@ func (g *tgen) elementSource(k ek, n int) vx {
 		g.route("src:element")
 		inner := g.litBody(k, n)
 		other := g.litBody(ekInt, 2)
-		switch g.n(0, 6, "elemhow") {
+		switch g.u(0, 6, "elemhow") {
 		case 0:
 			return vx{"(car '(" + inner + " " + other + "))", "list", k, n, "element"}
 		case 1:
@@ -300,7 +306,7 @@ func (g *tgen) view(s vx) vx {
 	c := s.code
 	switch s.kind {
 	case "list":
-		switch op := g.n(0, 27, "lview"); op {
+		switch op := g.u(0, 29, "lview"); op {
 		case 0, 1:
 			g.route("view:cdr")
 			return vx{"(cdr " + c + ")", "list", s.ek, dec(s.n), s.src}
@@ -319,7 +325,9 @@ func (g *tgen) view(s vx) vx {
 			i, j := g.idx(s.n)
 			g.route("view:elpspath-range")
 			return vx{fmt.Sprintf("(elpspath:? %s '(range %d %d))", c, i, j), "list", s.ek, span(s.n, i, j), s.src}
-		case 11:
+		case 11, 28, 29:
+			// zero appended values: the one input on which a capacity clamp
+			// alone hands back the input's own backing array
 			g.route("view:append-vector-0")
 			return vx{"(append 'vector " + c + ")", "vec", s.ek, s.n, s.src}
 		case 12, 13:
@@ -416,7 +424,7 @@ func (g *tgen) view(s vx) vx {
 			return vx{"(zip 'list " + c + " " + c + ")", "list", ekMixed, s.n, s.src}
 		}
 	case "vec":
-		switch g.n(0, 9, "vview") {
+		switch g.u(0, 9, "vview") {
 		case 0, 1:
 			i, j := g.idx(s.n)
 			g.route("view:vec-slice-vector")
@@ -469,7 +477,7 @@ func (g *tgen) sink(s vx) vx {
 	c := s.code
 	switch s.kind {
 	case "list":
-		switch g.n(0, 19, "lsink") {
+		switch g.u(0, 19, "lsink") {
 		case 0, 1, 2, 3, 4, 5, 6, 7:
 			g.sinkRoute("stable-sort", s)
 			return vx{g.sortCall(s.ek, c), "list", s.ek, s.n, s.src}
@@ -529,7 +537,7 @@ func (g *tgen) sink(s vx) vx {
 			return vx{"(elpspath:?set! (vector " + c + " " + c + ") " + g.oneOf("epstep", "0", "1", "'*") + " 0 " + g.elem(s.ek) + ")", "vec", ekMixed, 2, s.src}
 		}
 	case "vec":
-		switch g.n(0, 11, "vsink") {
+		switch g.u(0, 11, "vsink") {
 		case 0, 1, 2, 3:
 			g.sinkRoute("stable-sort", s)
 			return vx{g.sortCall(s.ek, c), "vec", s.ek, s.n, s.src}
@@ -561,7 +569,7 @@ func (g *tgen) sink(s vx) vx {
 			return vx{"(assoc! " + c + " 0 " + g.elem(s.ek) + ")", "vec", s.ek, s.n, s.src}
 		}
 	case "map":
-		switch g.n(0, 4, "msink") {
+		switch g.u(0, 4, "msink") {
 		case 0:
 			g.sinkRoute("assoc!", s)
 			return vx{"(assoc! " + c + " \"k\" " + g.elem(s.ek) + ")", "map", s.ek, s.n, s.src}
@@ -660,7 +668,7 @@ func (g *tgen) binderStep() string {
 			evArgs[i] = a
 		}
 	}
-	how := g.n(0, 19, "binder")
+	how := g.u(0, 19, "binder")
 	srcClass := "rest"
 	switch {
 	case how >= 6 && how <= 10:
@@ -799,7 +807,7 @@ func (g *tgen) stdlibStep() string {
 }
 
 func (g *tgen) step() string {
-	switch g.n(0, 12, "step") {
+	switch g.u(0, 12, "step") {
 	case 12:
 		return g.guarded("(probe " + g.probeTag() + " " + g.stdlibStep() + ")")
 	case 11:
